@@ -105,10 +105,10 @@ func c20lcheck(k c20lcase, run *vE2ERun, x *vs.Exec, injected *int64) (class, ms
 	end := run.Frames[0].T + int64(300*time.Millisecond)
 	// every failed read is followed by a pause of 5ms: at most one report per 5ms of down time (plus the
 	// read that was waiting when the link went down and the one that straddles the end), at least one
-	downFor := k.down
-	if downFor < 0 {
-		downFor = 300*time.Millisecond - k.before
-	}
+	// the error condition outlives the outage: a packet socket keeps the ENETDOWN that was set when its link
+	// went down, and afpacket's poll reports it on every call for the rest of the socket's life (confirmed on
+	// a real socket by c20ring), so reads fail from the moment the link goes down until the scan ends
+	downFor := 300*time.Millisecond - k.before
 	polls := 0
 	for _, e := range run.vErrRecords() {
 		if strings.Contains(e, "packet poll failed") {
@@ -126,7 +126,7 @@ func c20lcheck(k c20lcase, run *vE2ERun, x *vs.Exec, injected *int64) (class, ms
 		min, max, downFor = 0, 0, 0
 	}
 	if polls < min || polls > max {
-		return "reports", fmt.Sprintf("the link was down for %v: every read in that time fails with \"packet poll failed\" and is retried after a 5ms pause, so %d..%d error records are due; got %d", downFor, min, max, polls)
+		return "reports", fmt.Sprintf("the link went down %v before the end of the scan and the socket keeps the error: every read from then on fails with \"packet poll failed\" and is retried after a 5ms pause, so %d..%d error records are due; got %d", downFor, min, max, polls)
 	}
 	if run.RetT < end || run.RetT > end+int64(110*time.Millisecond) {
 		return "end-time", fmt.Sprintf("the command returned at %v; the probe left at %v and the exit delay is 300ms", time.Duration(run.RetT), time.Duration(run.Frames[0].T))
